@@ -303,13 +303,19 @@ def _mp_tile_worker(queue, done_event, pio, reproject_function, kwargs):
     invert_into_tiles = pio.get_default_vertical_parity_sign() == 1
 
     while True:
+        # Test the shutdown flag *before* waiting on the queue. The flag is
+        # only raised once every item has been flushed into the queue, so a
+        # timeout that follows a raised flag means the queue is drained;
+        # testing it after the timeout could drop items queued in between.
+        done = done_event.is_set()
+
         try:
             # un-pickling WCS objects always triggers warnings right now
             with warnings.catch_warnings():
                 warnings.simplefilter("ignore")
                 image, desc, combined_wcs = queue.get(True, timeout=10)
         except Empty:
-            if done_event.is_set():
+            if done:
                 break
             continue
 
